@@ -211,7 +211,7 @@ theorem rrsetExt_one_count {off : Nat} {t : CTable} {origin : Option Name} {r : 
 theorem finish_shape (r : RState) (opt : Option EOpt) (tsig : Option Tsig) (a b : Nat) (r' : RState)
     (h12 : 12 ≤ r.out.length) (h : r.finish opt tsig 0 a b = .ok r') :
     ∃ eo to bo et bt, OptPart r.out.length r.tbl r.origin opt eo to bo ∧
-      TsigPart (r.out.length + eo.length) (r.tbl ++ to) r.origin tsig et bt ∧
+      TsigPart (r.out.length + eo.length) [] r.origin tsig et bt ∧
       r'.out = u16 r.id ++ u16 r.flags ++ u16 r.counts.c0 ++ u16 r.counts.c1 ++ u16 r.counts.c2
         ++ u16 (r.counts.c3 + bo + bt) ++ r.out.drop 12 ++ eo ++ et := by
   unfold RState.finish at h
@@ -249,17 +249,18 @@ theorem finish_shape (r : RState) (opt : Option EOpt) (tsig : Option Tsig) (a b 
       simp
     | some t =>
       simp only at h
-      cases h6 : stepToExcept (r5.writeHeader.addRRset ConstsC03.secADDITIONAL (tsigRRset t)) with
+      cases h6 : stepToExcept (({ r5.writeHeader with tbl := [] } : RState).addRRset ConstsC03.secADDITIONAL (tsigRRset t)) with
       | error e => rw [h6] at h; simp at h
       | ok r6 =>
         rw [h6] at h
         simp at h; subst h
-        obtain ⟨p, hp, hs6⟩ := addRRset3_shape r5.writeHeader (tsigRRset t) r6 h6
+        obtain ⟨p, hp, hs6⟩ := addRRset3_shape ({ r5.writeHeader with tbl := [] } : RState) (tsigRRset t) r6 h6
         have hp1 := rrsetExt_one_count (by simp [tsigRRset]) hp
-        have hwl : r5.writeHeader.out.length = r.out.length + eo.length := by
+        have hwl : ({ r5.writeHeader with tbl := [] } : RState).out.length = r.out.length + eo.length := by
+          show r5.writeHeader.out.length = _
           rw [writeHeader_length r5 hl5, ho5]; simp
-        have hwt : r5.writeHeader.tbl = r.tbl ++ to := by simp [RState.writeHeader, ht5]
-        have hwo : r5.writeHeader.origin = r.origin := by simp [RState.writeHeader, hor5]
+        have hwt : ({ r5.writeHeader with tbl := [] } : RState).tbl = [] := rfl
+        have hwo : ({ r5.writeHeader with tbl := [] } : RState).origin = r.origin := by simp [RState.writeHeader, hor5]
         rw [hwl, hwt, hwo] at hp
         refine ⟨eo, to, bo, p.1, 1, hopart, ⟨p, hp, rfl, rfl, hp1⟩, ?_⟩
         subst hs6
@@ -276,7 +277,7 @@ namespace Model
 theorem toWire_shape_full (m : Message) (lim : Nat) (w : Bytes) (hpad : m.pad = 0) (h : m.toWire lim false = .ok w) :
     ∃ q, itemsExt m.origin 12 [] m.items = .ok q ∧ ∃ eo to bo et bt,
       OptPart (12 + q.1.length) q.2 m.origin m.opt eo to bo ∧
-      TsigPart (12 + q.1.length + eo.length) (q.2 ++ to) m.origin m.tsig et bt ∧
+      TsigPart (12 + q.1.length + eo.length) [] m.origin m.tsig et bt ∧
       w = hdrBytes m (rrCount m.ad + bo + bt) ++ q.1 ++ eo ++ et := by
   rw [toWire_eq] at h
   cases hb : m.tsigReserve with
@@ -322,7 +323,8 @@ theorem toWire_shape_full (m : Message) (lim : Nat) (w : Bytes) (hpad : m.pad = 
             have hl3 : r3.out.length = 12 + q.1.length := by rw [ho, o2]; simp <;> omega
             have ht3 : r3.tbl = q.2 := by rw [htb, t2]; simp
             have ho3 : r3.origin = m.origin := by rw [hor, og2]
-            rw [hl3, ht3, ho3] at hop htp
+            rw [hl3, ht3, ho3] at hop
+            rw [hl3, ho3] at htp
             refine ⟨eo, to, bo, et, bt, hop, htp, ?_⟩
             rw [← h, hout, hc, i3, i0, f3, f0, ho, o2]
             simp only [hdrBytes]
@@ -362,7 +364,7 @@ theorem parse_tail (cfg : PCfg) (horg : cfg.origin = none) (hkey : cfg.hasKey = 
     (opt : Option EOpt) (tsig : Option Tsig) (eo et : Bytes) (to : CTable) (bo bt nad : Nat) (st : PState)
     (hcur : st.cur = A.length) (hs : TableSound NameEqv A t) (hso : st.opt = none) (hst : st.tsig = none)
     (hoo : ∀ o, opt = some o → OptOk o) (hto : ∀ ts, tsig = some ts → TsigOk ts)
-    (hop : OptPart A.length t none opt eo to bo) (htp : TsigPart (A.length + eo.length) (t ++ to) none tsig et bt) :
+    (hop : OptPart A.length t none opt eo to bo) (htp : TsigPart (A.length + eo.length) [] none tsig et bt) :
     ∃ ts', optSim ts' tsig ∧
       parseSection cfg false (A ++ eo ++ et) ConstsC03.secADDITIONAL (nad + bo + bt) (bo + bt) nad st =
         .ok { st with cur := A.length + eo.length + et.length, opt := opt, tsig := ts' } := by
@@ -390,8 +392,8 @@ theorem parse_tail (cfg : PCfg) (horg : cfg.origin = none) (hkey : cfg.hasKey = 
     obtain ⟨p, hp, rfl, rfl, _⟩ := htp
     have hl : (A ++ eo).length = A.length + eo.length := by simp
     rw [← hl] at hp
-    obtain ⟨ts', hsim, hpt, _⟩ := parseRR_tsig cfg horg hkey (A ++ eo) [] (t ++ to) ts p (nad + bo + 1) (nad + bo)
-      { st with cur := A.length + eo.length, opt := opt } (by simp) hs1 (hto ts rfl) (by omega) hp
+    obtain ⟨ts', hsim, hpt, _⟩ := parseRR_tsig cfg horg hkey (A ++ eo) [] [] ts p (nad + bo + 1) (nad + bo)
+      { st with cur := A.length + eo.length, opt := opt } (by simp) (tableSound_nil _) (hto ts rfl) (by omega) hp
     refine ⟨some ts', hsim, ?_⟩
     simp only [parseSection]
     simp only [List.append_nil] at hpt
